@@ -148,6 +148,15 @@ def check(ctx):
                 good = 1 in f2.backward([op_local(rv['ops'][0])])
         ctx.ob('C11.K3', 'register_ts-forwards-stamp', good, site(b),
                'register_ts sends Event::Register(caller\'s stamp)' if good else 'register_ts does not forward the caller\'s stamp')
+    # requests reach the actor reliably: a blocking / awaited send, never try_send (a full queue would silently drop the event)
+    for b in gt + rt:
+        who = b.name.split('::')[-2]
+        snd = [(bb, t) for bb, t in b.calls() if cname(t) and cname(t).startswith('flume::') and 'send' in last_seg(cname(t))]
+        bad_s = [last_seg(cname(t)) for bb, t in snd if last_seg(cname(t)).startswith('try_')]
+        ctx.ob('C11.K3', who + '|reliable-send', bool(snd) and not bad_s, site(b, snd[0][1]['cs'] if snd else None),
+               '%s hands its event to the actor with %s (waits for queue space)' % (who, sorted({last_seg(cname(t)) for bb, t in snd})) if snd and not bad_s else
+               '%s uses %s: when the actor\'s queue is full the event is dropped, so a remote stamp that was "registered" is never merged and a later '
+               'get_time can return a smaller stamp' % (who, bad_s or 'no channel send'))
     good = len(recvs) == 1
     if good:
         ab = flow.backward([op_local(recvs[0][1]['args'][1])])
